@@ -446,7 +446,29 @@ func (in *Interp) runFrame(fr *Frame) {
 		}
 	}()
 	for {
+		// phis of a block are parallel assignments: read all edges before writing any
+		if nphi := countPhis(fr.block); nphi > 0 {
+			var tmp [8]Value
+			vals := tmp[:0]
+			for _, instr := range fr.block.Instrs[:nphi] {
+				phi := instr.(*ssa.Phi)
+				var v Value
+				for i, pred := range fr.block.Preds {
+					if fr.prev == pred {
+						v = fr.get(phi.Edges[i])
+						break
+					}
+				}
+				vals = append(vals, v)
+			}
+			for i, instr := range fr.block.Instrs[:nphi] {
+				fr.set(instr.(*ssa.Phi), vals[i])
+			}
+		}
 		for _, instr := range fr.block.Instrs {
+			if _, isPhi := instr.(*ssa.Phi); isPhi {
+				continue
+			}
 			fr.curInstr = instr
 			in.steps++
 			if in.steps > in.cfg.MaxSteps && in.initDepth == 0 {
@@ -1041,4 +1063,15 @@ func debugf(format string, args ...interface{}) {
 	if os.Getenv("GOSYM_DEBUG") != "" {
 		fmt.Fprintf(os.Stderr, format+"\n", args...)
 	}
+}
+
+func countPhis(b *ssa.BasicBlock) int {
+	n := 0
+	for _, instr := range b.Instrs {
+		if _, ok := instr.(*ssa.Phi); !ok {
+			break
+		}
+		n++
+	}
+	return n
 }
